@@ -156,6 +156,7 @@ PROPERTIES = {
                  + ["float::check_to_f32", "float::check_to_f64", "float::check_kind_f32", "float::check_kind_f64"]
                  + _mods("rem8", ["i4f4", "i1f7", "u4f4"], REM) + CONVX + ["conv8::i8f_i8", "conv8::u8f_u16", "conv8::i8f_bool", "conv8::u8f_bool", "conv8::s4::i8_to_u8", "conv8::s4::u8_to_i8"]
                  + _mods("wrap8", ["i4f4", "u0f8"], ["arith_ops", "bit_and_shift_ops", "rounding_and_conversion"])
+                 + ["wrap8::fold_i1f7", "wrap8::fold_i0f8", "wrap8::fold_u0f8"]      # Sum / Product incl. the empty fold on types that cannot hold 1 (seed C11-F)
                  + ["transc::exp_i9f23", "transc::sin_i9f23"]],
         "explanation": "Profiles differ only through overflow / shift-amount checks and debug assertions.  Both back ends verify under the "
                        "checking semantics on the dev-profile expansion: every such site inside a function under contract is a panic-class "
